@@ -435,21 +435,28 @@ Qed.
 Lemma notlive_track_op m o ob r : match o with Issue _ _ => False | _ => True end -> notlive m r -> notlive (track_op cfg m o ob) r.
 Proof.
   intros Ho H. destruct o; try contradiction; cbn [track_op]; try exact H.
-  - destruct (nth_error (m_reqs m) r0) as [x|]; [|exact H]. destruct (ri_stat x); try exact H; apply notlive_ri_upd; auto.
+  - destruct (nth_error (m_reqs m) r0) as [x|]; [|exact H]. destruct (ri_stat x); try exact H; [|apply notlive_ri_upd; auto].
+    destruct (ri_popx x) as [c|]; [|apply notlive_ri_upd; auto]. destruct (nth_error (m_conns m) c) as [y|]; [|apply notlive_ri_upd; auto].
+    destruct (ci_share y); apply notlive_ri_upd; auto.
   - destruct (holder_conn m r0); exact H.
   - apply notlive_ri_upd; [|exact H]. intros y Hy. destruct (ri_dial y), (ri_resolved y); exact Hy.
 Qed.
 Lemma notlive_cancel m r ob : notlive (track_op cfg m (Cancel r) ob) r.
 Proof.
   cbn [track_op]. destruct (nth_error (m_reqs m) r) as [x|] eqn:E; [|unfold notlive; rewrite E; exact I].
-  destruct (ri_stat x) eqn:Es; try (unfold notlive; rewrite E; unfold is_live; rewrite Es; reflexivity);
-    (unfold notlive, ri_upd; cbn [m_reqs set_m_reqs]; rewrite nth_error_upd_eq, E; reflexivity).
+  assert (Hpre : forall mi f, m_reqs mi = m_reqs m -> (forall y, is_live (f y) = false) -> notlive (ri_upd f r mi) r).
+  { intros mi f Em Hf. unfold notlive, ri_upd. cbn [m_reqs set_m_reqs]. rewrite nth_error_upd_eq, Em, E. cbn. apply Hf. }
+  destruct (ri_stat x) eqn:Es; try (unfold notlive; rewrite E; unfold is_live; rewrite Es; reflexivity); [|apply Hpre; reflexivity].
+  destruct (ri_popx x) as [c|]; [|apply Hpre; reflexivity]. destruct (nth_error (m_conns m) c) as [y|]; [|apply Hpre; reflexivity].
+  destruct (ci_share y); apply Hpre; reflexivity.
 Qed.
 Lemma mreqs_len_track_op m o ob : match o with Issue _ _ => False | _ => True end ->
   List.length (m_reqs (track_op cfg m o ob)) = List.length (m_reqs m).
 Proof.
   intros Ho. destruct o; try contradiction; cbn [track_op]; try reflexivity.
-  - destruct (nth_error (m_reqs m) r) as [x|]; [|reflexivity]. destruct (ri_stat x); try reflexivity; unfold ri_upd; cbn; apply upd_nth_len.
+  - destruct (nth_error (m_reqs m) r) as [x|]; [|reflexivity]. destruct (ri_stat x); try reflexivity; [|unfold ri_upd; cbn; apply upd_nth_len].
+    destruct (ri_popx x) as [c|]; [|unfold ri_upd; cbn; apply upd_nth_len]. destruct (nth_error (m_conns m) c) as [y|]; [|unfold ri_upd; cbn; apply upd_nth_len].
+    destruct (ci_share y); unfold ri_upd; cbn; apply upd_nth_len.
   - destruct (holder_conn m r); reflexivity.
   - unfold ri_upd. cbn. apply upd_nth_len.
 Qed.
